@@ -294,61 +294,77 @@ def call(intf, rs_sa, routing, lun, netfn, cmd, payload):
 # C09 end to end: Rmcp with a routed target behind a chain of simulated bridges
 # ---------------------------------------------------------------------------
 def oracle_bridged_e2e(inp, spec_peel, spec_wrap_reply, spec_reply_frame, spec_request_frame):
+    """One Rmcp object, ONE Target object, one or several requests (inp['calls'], else the single
+    request described by inp itself): every transmitted datagram is peeled by the simulated bridges,
+    every reply comes back through them; target.routing must be left as it was."""
     import pyipmi.errors as E
     routing = inp['routing']
     depth = len(routing)
-    p, reply = bytes.fromhex(inp['p']), bytes.fromhex(inp['reply'])
-    seq = (inp['seq0'] + 1) % 64
+    calls = inp.get('calls') or [inp]
     slave = 0x81
-    # what the chain will answer, computed from the request the spec says must arrive
-    h_final = [routing[-1][1], inp['lun'], routing[-1][0], 0, seq, inp['netfn'], inp['cmd']]
-    inner_reply = spec_reply_frame(h_final, reply)
-    ws = [[r[0], 0, r[1], 0, seq] for r in routing[:-1]]
-    events = []
-    for k in range(inp['acks']):
-        # acknowledgement of the outermost bridge(s): Send Message response, no embedded frame
-        nlayers = 1 + (k % max(1, depth - 1))
-        f = b''
-        for w in reversed(ws[:nlayers]):
-            f = spec_wrap_reply(w, 0, f)
-        events.append(('F', f))
-    fl = inp.get('fail_layer')
-    if fl is not None:
-        f = b''
-        for i in range(fl, -1, -1):
-            f = spec_wrap_reply(ws[i], inp['cc'] if i == fl else 0, f)
-        events.append(('F', f))
-    else:
-        f = inner_reply
-        for w in reversed(ws):
-            f = spec_wrap_reply(w, 0, f)
-        events.append(('F', f))
-    script = Script(events)
+    script = Script([])
     intf = make_rmcp(script, max_retries=inp['max_retries'], next_seq=inp['seq0'], slave=slave)
-    got = call(intf, 0x20, routing, inp['lun'], inp['netfn'], inp['cmd'], p)
-    sent = sent_of('rmcp', intf)
-    if len(sent) != 1:
-        return '%d datagrams sent, expected exactly one (acknowledgements must not trigger a resend): %r' % (
-            len(sent), [s.hex() for s in sent])
-    r = spec_peel(depth - 1, sent[0])
-    if r is None:
-        return 'a bridge on the path rejects the transmitted frame %s' % sent[0].hex()
-    hops, inner = r
-    want_hops = [[x[0], x[1], x[2], 1, seq] for x in routing[:-1]]
-    if hops != want_hops:
-        return 'hops %r differ from the routing %r' % (hops, want_hops)
-    want_inner = spec_request_frame(routing[-1][1], inp['lun'], routing[-1][0], 0, seq, inp['netfn'], inp['cmd'], p)
-    if inner != want_inner:
-        return 'innermost frame %s is not the request %s' % (inner.hex(), want_inner.hex())
-    if fl is not None:
-        if isinstance(got, E.CompletionCodeError) and got.cc == inp['cc']:
-            return None
-        return 'hop %d answered cc=0x%02x; send_and_receive_raw gave %r' % (fl, inp['cc'], got)
-    if isinstance(got, Exception):
-        return 'after %d acknowledgement(s) the forwarded reply was not returned: %s %s' % (
-            inp['acks'], type(got).__name__, got)
-    if got != reply:
-        return 'returned %s, the target replied %s' % (got.hex(), reply.hex())
-    if script.unread() != 0:
-        return 'reply returned before the forwarded reply was read'
+    t = make_target(0x20, routing)
+    want_routing = [(r[0], r[1], r[2]) for r in routing]
+    for n, c in enumerate(calls):
+        where = 'request %d through the same Target: ' % n if len(calls) > 1 else ''
+        p, reply = bytes.fromhex(c['p']), bytes.fromhex(c['reply'])
+        seq = (inp['seq0'] + n + 1) % 64
+        # what the chain will answer, computed from the request the spec says must arrive
+        h_final = [routing[-1][1], c['lun'], routing[-1][0], 0, seq, c['netfn'], c['cmd']]
+        inner_reply = spec_reply_frame(h_final, reply)
+        ws = [[r[0], 0, r[1], 0, seq] for r in routing[:-1]]
+        events = []
+        for k in range(c['acks'] if ws else 0):
+            # acknowledgement of the outermost bridge(s): Send Message response, no embedded frame
+            nlayers = 1 + (k % max(1, depth - 1))
+            f = b''
+            for w in reversed(ws[:nlayers]):
+                f = spec_wrap_reply(w, 0, f)
+            events.append(('F', f))
+        fl = c.get('fail_layer') if ws else None
+        if fl is not None:
+            f = b''
+            for i in range(fl, -1, -1):
+                f = spec_wrap_reply(ws[i], c['cc'] if i == fl else 0, f)
+            events.append(('F', f))
+        else:
+            f = inner_reply
+            for w in reversed(ws):
+                f = spec_wrap_reply(w, 0, f)
+            events.append(('F', f))
+        script.extend(events)
+        clear_sent('rmcp', intf)
+        try:
+            got = bytes(intf.send_and_receive_raw(t, c['lun'], c['netfn'], bytes([c['cmd']]) + p))
+        except Exception as e:  # noqa
+            got = e
+        sent = sent_of('rmcp', intf)
+        if len(sent) != 1:
+            return where + '%d datagrams sent, expected exactly one (acknowledgements must not trigger a resend): %r' % (
+                len(sent), [x.hex() for x in sent])
+        r = spec_peel(depth - 1, sent[0])
+        if r is None:
+            return where + 'a bridge on the path rejects the transmitted frame %s' % sent[0].hex()
+        hops, inner = r
+        want_hops = [[x[0], x[1], x[2], 1, seq] for x in routing[:-1]]
+        if hops != want_hops:
+            return where + 'hops %r differ from the routing %r' % (hops, want_hops)
+        want_inner = spec_request_frame(routing[-1][1], c['lun'], routing[-1][0], 0, seq, c['netfn'], c['cmd'], p)
+        if inner != want_inner:
+            return where + 'innermost frame %s is not the request %s' % (inner.hex(), want_inner.hex())
+        if fl is not None:
+            if not (isinstance(got, E.CompletionCodeError) and got.cc == c['cc']):
+                return where + 'hop %d answered cc=0x%02x; send_and_receive_raw gave %r' % (fl, c['cc'], got)
+        else:
+            if isinstance(got, Exception):
+                return where + 'after %d acknowledgement(s) the forwarded reply was not returned: %s %s' % (
+                    c['acks'], type(got).__name__, got)
+            if got != reply:
+                return where + 'returned %s, the target replied %s' % (got.hex(), reply.hex())
+        if script.unread() != 0:
+            return where + 'request finished before the forwarded reply was read'
+        now = [(x.rq_sa, x.rs_sa, x.channel) for x in (t.routing or [])]
+        if now != want_routing:
+            return where + 'target.routing is now %r, it was %r' % (now, want_routing)
     return None
